@@ -9,7 +9,7 @@ Conformance  : (T) traces of every fixed-step family (explicit, splitting, impli
                step sequences and the final states (rounding level for fixed-step, tolerance level for adaptive).
 """
 import random
-from vf import gen, odecore, core, scen, twins
+from vf import integreplay, gen, odecore, core, scen, twins
 
 LEVEL = "model_checking"
 PREFIX = ("C04.",)
@@ -86,6 +86,9 @@ def check(run, replay=None):
     run.rule = ("traces: fixed-step family x placement of (t0, tf) (10 patterns) x dt (span/8, span/3, span) x call sequence; "
                 "twins: family x span x problem x {shift by 8, -16, 1/2; reflection}; non-trivial = at least two full steps "
                 "before the final one / twin with >= 3 steps; distinct by (method, span, dt, ops) resp. (method, span, kind)")
+    if replay and isinstance(replay.get("scenario"), dict) and "integreplay" in replay["scenario"]:
+        integreplay.phase(run, "C04", ('AttemptedSteps', 'Outcome', 'ReturnedStep'), replay=replay["scenario"]["integreplay"])
+        return
     if replay:
         sc = replay.get("scenario")
         if isinstance(sc, dict) and "twin" in sc:
@@ -132,6 +135,10 @@ def check(run, replay=None):
                           {"units": cases[bad["id"]]["units"], "tolUnits": cases[bad["id"]]["tolUnits"],
                            "stepsA": len(cases[bad["id"]]["seqA"]), "stepsB": len(cases[bad["id"]]["seqB"])},
                           replay={"twin": [kind, a, b, is_fixed]})
+    if not replay:
+        # spec -> code: behaviours of Integrator.tla (attempts, the controller's verdicts, retries, giving up, faults) replayed on real
+        # integrator objects through the public adaptation_fn hook
+        integreplay.phase(run, "C04", ('AttemptedSteps', 'Outcome', 'ReturnedStep'))
     run.assumptions += ["shifts are dyadic and steps dyadic, so the time arithmetic of the loop is exact and identical step "
                         "sequences are required bit-for-bit; states are compared at rounding level (16 units of eps*max(1,|y|) per step) "
                         "for fixed-step methods and at 100 x (atol + rtol|y|) for adaptive ones (spec/Bounds.tla)"]
